@@ -105,6 +105,12 @@ def check(run):
         run.cov["bytes_model"] = bstats
     if not env["props_ok"] or not env["coq_ok"]:
         run.violation("proof-broken", "Coq development or Properties_C20.v no longer checks", dict(log=env["props_log"][-1500:]), no_input=True)
+    cv = stats.get("configured_codec_violations") or []
+    for v in cv[:5]:
+        run.violation("configured-codec", "server with its own inbound codec (WithInboundCodec), body %s: %s" % (v.get("body"), v.get("what")), v)
+    run.obligation("a server configured with its own inbound codec lets THAT codec decide: a request it refuses is answered with the codec's status and "
+                   "runs nothing, a request it lets through is answered as the stock server answers it (%d requests)" % (stats.get("configured_codec_requests") or 0),
+                   not cv and (stats.get("configured_codec_requests") or 0) > 0)
     hist = stats["status_histogram"]
     n = stats["product"] + stats["random"]
     run.cov.update(evaluations=n + stats["client_cases"],
